@@ -12,7 +12,8 @@ typedef struct vobj_struct {
     long root;       /* serial of the harness-created object this one was (transitively) copied from */
 } *vobj_t;
 
-extern spif_class_t vobj_class;
+extern spif_class_t vobj_class, vobj2_class;
+vobj_t vobj_new2(long key);                /* the same, of the sibling class */
 vobj_t vobj_new(long key);                 /* harness-created original: root == serial */
 int    vobj_valid(const void *p);          /* live block carrying the magic */
 void   vobj_reset(void);                   /* per run */
